@@ -102,6 +102,7 @@ _ERR = re.compile(r"err:[\w-]+:(?:U|P[0-9a-f-]+)")
 
 
 def abstract(rest):
-    """results and final state at the level linearizability is judged: ok values, 'err', no timestamps"""
+    """results and final state at the level linearizability is judged: ok values (metadata with its timestamps:
+    explicitly set values exactly, values of now() as 'auto'), failures as 'err'"""
     body = rest.split(" :: ", 1)[1] if " :: " in rest else rest
-    return _ERR.sub("err", hist.strip_times(body))
+    return _ERR.sub("err", body)
